@@ -1717,7 +1717,18 @@ def k_protected(repo):
     cx.types["layout_size"] = "usize"
     wipe_len = ex(subst_call(a[1], "layout.size()", "layout_size"), cx, "usize")
     iz, ifree = dbody.find("region.zeroize()"), dbody.find("libc::free(")
-    order_ok = 0 <= iz < ifree and iz > m.start()
+
+    def depth_at(text, pos):
+        d = 0
+        for ch in text[:pos]:
+            d += ch == "{"
+            d -= ch == "}"
+        return d
+    # the wipe is an UNCONDITIONAL statement of the function body (brace depth 1: not inside an `if`, a closure or a loop), nothing
+    # returns before it, and it comes after the region is made writable and before the block is handed to free()
+    irw = dbody.find("dryoc_mprotect_readwrite(region)")
+    order_ok = (0 <= iz < ifree and iz > m.start() and depth_at(dbody, iz) == 1 and depth_at(dbody, m.start()) == 1
+                and not re.search(r"\breturn\b", dbody[:iz]) and 0 <= irw < iz and dbody.count("region.zeroize()") == 1)
     out += "def deallocate_wipe_len (layout_size : Nat) : Nat :=\n  %s\n\n" % wipe_len
     out += "def deallocate_wipes_before_free : Bool := %s\n\n" % ("true" if order_ok else "false")
     return out + "end DryocVerif.Gen.Protected\n"
@@ -1913,11 +1924,25 @@ def k_simdtext(repo):
         body = re.sub(r"compress\s*\(\s*&mut\s+self\s*\.\s*a\s*,\s*&mut\s+self\s*\.\s*b\s*,", "compress(&mut self.h,", body)
         return body
 
+    WIPES = [(r"self\s*\.\s*buf\s*\.\s*zeroize\s*\(\s*\)\s*;", r"self\s*\.\s*buf\b"), (r"self\s*\.\s*h\s*\.\s*zeroize\s*\(\s*\)\s*;", r"self\s*\.\s*h\b"),
+             (r"self\s*\.\s*a\s*=\s*Simd\s*::\s*splat\s*\(\s*0\s*\)\s*;", r"self\s*\.\s*a\b"), (r"self\s*\.\s*b\s*=\s*Simd\s*::\s*splat\s*\(\s*0\s*\)\s*;", r"self\s*\.\s*b\b")]
+
     def drop_wipes(body):
-        # statements that only wipe state after the result is out (irrelevant to the output)
-        for w in (r"self\s*\.\s*buf\s*\.\s*zeroize\s*\(\s*\)\s*;", r"self\s*\.\s*h\s*\.\s*zeroize\s*\(\s*\)\s*;",
-                  r"self\s*\.\s*a\s*=\s*Simd\s*::\s*splat\s*\(\s*0\s*\)\s*;", r"self\s*\.\s*b\s*=\s*Simd\s*::\s*splat\s*\(\s*0\s*\)\s*;"):
-            body = re.sub(w, "", body)
+        # a statement that only wipes a field is irrelevant to the output IF the field is not used again afterwards (other than by
+        # further wipes): only such statements are removed; a wipe in the middle of the computation stays and is compared
+        def without_all(text):
+            for w, _ in WIPES:
+                text = re.sub(w, "", text)
+            return text
+        changed = True
+        while changed:
+            changed = False
+            for w, use in WIPES:
+                for m in list(re.finditer(w, body))[::-1]:
+                    rest = without_all(body[m.end():])
+                    if not re.search(use, rest):
+                        body = body[:m.start()] + body[m.end():]
+                        changed = True
         return body
 
     def let_h_order(body):
@@ -1939,14 +1964,44 @@ def k_simdtext(repo):
         a = toks(let_h_order(drop_wipes(ba)))
         b = toks(let_h_order(drop_wipes(norm_simd(bb))))
         rows.append((fn, a == b and toks(pa) == toks(pb) and (ra or "") .split() == (rb or "").split()))
-    # init_param / init0: the parameter block is xored word by word into IV, in order
-    _, _, ip = find_fn(simd, "init_param")
-    ranges = [(int(x), int(y)) for x, y in re.findall(r"load_u64_le\s*\(\s*&pslice\s*\[\s*(\d+)\s*\.\.\s*(\d+)\s*\]\s*\)", ip)]
-    a_first = re.search(r"state\s*\.\s*a\s*\^=", ip) and re.search(r"state\s*\.\s*b\s*\^=", ip) and ip.index("state.a") < ip.index("state.b")
-    rows.append(("init_param", ranges == [(8 * i, 8 * i + 8) for i in range(8)] and bool(a_first) and "state.init0()" in ip))
-    _, _, i0 = find_fn(simd, "init0")
-    rows.append(("init0", bool(re.search(r"self\s*\.\s*a\s*=\s*Simd\s*::\s*from_slice\s*\(\s*&IV\s*\[\s*\.\.\s*4\s*\]\s*\)", i0))
-                 and bool(re.search(r"self\s*\.\s*b\s*=\s*Simd\s*::\s*from_slice\s*\(\s*&IV\s*\[\s*4\s*\.\.\s*8\s*\]\s*\)", i0))))
+    # init_param: the SIMD text must be the software text with its word loop replaced by exactly the two 4-lane xors (words 0..3 into a,
+    # 4..7 into b, byte ranges 8i..8i+8, in order); init0: exactly the two loads of IV[..4] and IV[4..8]
+    def tk(text):
+        return toks(text)
+    try:
+        pa, ra, ip_soft = find_fn(soft, "init_param")
+        pb, rb, ip_simd = find_fn(simd, "init_param")
+        loop = re.search(r"for\s+i\s+in\s+0\s*\.\.\s*8\s*\{[^{}]*\}", ip_soft)
+        canon = ("state.a ^= Simd::<u64, 4>::from([load_u64_le(&pslice[0..8]), load_u64_le(&pslice[8..16]), load_u64_le(&pslice[16..24]), load_u64_le(&pslice[24..32]),]);"
+                 "state.b ^= Simd::<u64, 4>::from([load_u64_le(&pslice[32..40]), load_u64_le(&pslice[40..48]), load_u64_le(&pslice[48..56]), load_u64_le(&pslice[56..64]),]);")
+        soft_loop_ok = bool(loop) and tk(loop.group(0)) == tk("for i in 0..8 { state.h[i] ^= load_u64_le(&pslice[(8 * i)..(8 * i + 8)]); }")
+        expected = ip_soft[:loop.start()] + canon + ip_soft[loop.end():] if loop else ""
+        rows.append(("init_param", soft_loop_ok and tk(expected) == tk(ip_simd) and tk(pa) == tk(pb)))
+    except Unsupported:
+        rows.append(("init_param", False))
+    try:
+        _, _, i0_soft = find_fn(soft, "init0")
+        _, _, i0_simd = find_fn(simd, "init0")
+        rows.append(("init0", tk(i0_soft) == tk("{ self.h[..8].copy_from_slice(&IV); }") and
+                     tk(i0_simd) == tk("{ self.a = Simd::from_slice(&IV[..4]); self.b = Simd::from_slice(&IV[4..8]); }")))
+    except Unsupported:
+        rows.append(("init0", False))
+    # the items around the functions: the constants, the parameter block and its defaults (fanout = depth = 1), the IV, and the state's
+    # fields other than the chaining value
+    def item(text, pat):
+        m = re.search(pat, text, re.S)
+        return tk(m.group(0)) if m else None
+    for nm, pat in (("consts", r"const\s+BLOCKBYTES.*?const\s+PERSONALBYTES[^;]*;"), ("struct_Params", r"#\[repr\(packed\)\].*?struct\s+Params\s*\{.*?\n\}"),
+                    ("default_Params", r"impl\s+Default\s+for\s+Params\s*\{.*?\n\}\n"), ("IV", r"const\s+IV\s*:.*?\];")):
+        a, b = item(soft, pat), item(simd, pat)
+        rows.append((nm, a is not None and a == b))
+    def state_fields(text, drop):
+        m = re.search(r"(#\[derive\([^)]*\)\])\s*pub\s+struct\s+State\s*\{(.*?)\n\}", text, re.S)
+        if not m:
+            return None
+        fields = [l.strip().rstrip(",") for l in m.group(2).splitlines() if l.strip() and not l.strip().startswith("#[")]
+        return (tk(m.group(1)), sorted(" ".join(f.split()) for f in fields if f.split(":")[0].strip() not in drop))
+    rows.append(("struct_State", state_fields(soft, {"h"}) is not None and state_fields(soft, {"h"}) == state_fields(simd, {"a", "b"})))
     out += "def same_as_software : List (String × Bool) := [%s]\n\n" % ", ".join('("%s", %s)' % (n, "true" if v else "false") for n, v in rows)
     return out + "end DryocVerif.Gen.SimdText\n"
 
@@ -2030,7 +2085,105 @@ def k_stream(repo):
     return out + "end DryocVerif.Gen.Stream\n"
 
 
-KERNELS = {"Stream": k_stream, "SimdText": k_simdtext, "Pwhash": k_pwhash, "Curve": k_curve, "Protected": k_protected, "Core": k_core, "Argon2": k_argon2, "Utils": k_utils, "Poly1305": k_poly1305, "Blake2b": k_blake2b, "SipHash": k_siphash}
+def k_kx(repo):
+    """src/classic/crypto_kx.rs as DATA: what is hashed and in which order, how the 64-byte digest is split, how the client and the
+    server function call the common helper (the server passes (tx, rx)), which operands go into the scalar multiplication, and that the
+    all-zero check (exactly: constant-time equality with 32 zero bytes → Err) sits between the two"""
+    path = "src/classic/crypto_kx.rs"
+    src = strip_tests(open(os.path.join(repo, path)).read())
+    consts = crate_consts(repo, ["CRYPTO_KX_SESSIONKEYBYTES", "CRYPTO_SCALARMULT_BYTES"])
+    out = header(path, "Kx")
+
+    def call_args_text(body, callee, nth=0):
+        ms = list(re.finditer(r"\b%s\s*\(" % re.escape(callee), body))
+        if len(ms) <= nth:
+            fail("crypto_kx: call %d of %s not found" % (nth, callee))
+        pz = Parser(lex(body[ms[nth].end() - 1:]))
+        pz.expect("(")
+        return pz.args(), ms[nth].start()
+
+    def names(asts):
+        out_ = []
+        for a in asts:
+            while a[0] in ("paren", "cast"):
+                a = a[1]
+            if a[0] != "var":
+                fail("crypto_kx: argument is not a plain name")
+            out_.append(a[1])
+        return out_
+    _, _, kb = find_fn(src, "crypto_kx")
+    n_upd = len(re.findall(r"\bcrypto_generichash_update\s*\(", kb))
+    upd = [call_args_text(kb, "crypto_generichash_update", i)[0] for i in range(n_upd)]
+    if any(len(a) != 2 for a in upd):
+        fail("crypto_kx: update arity")
+    upd = [names(a) for a in upd]
+    init_args, _ = call_args_text(kb, "crypto_generichash_init")
+    cx = Ctx({}, consts)
+    outlen = const_eval(init_args[1], cx)
+    if init_args[0] != ("var", "None") or outlen is None:
+        fail("crypto_kx: generichash_init(None, <const>) expected")
+    splits = []
+    for m in re.finditer(r"\b(x\d)\s*\.\s*copy_from_slice\s*\(\s*&\s*keys\s*\[([^\]]*)\]\s*\)", kb):
+        lo, hi = (m.group(2).split("..") + [""])[:2]
+        lo_v = const_eval(parse_expr(lo), cx) if lo.strip() else 0
+        hi_v = const_eval(parse_expr(hi), cx) if hi.strip() else outlen
+        if lo_v is None or hi_v is None:
+            fail("crypto_kx: split bounds")
+        splits.append((m.group(1), lo_v, hi_v))
+    out += "def hash_updates : List String := [%s]\n\n" % ", ".join('"%s"' % a[1] for a in upd)
+    out += "def hash_outlen : Nat := %d\n\n" % outlen
+    out += "def digest_split : List (String × Nat × Nat) := [%s]\n\n" % ", ".join('("%s", %d, %d)' % t for t in splits)
+    for fn, short in (("crypto_kx_client_session_keys", "client"), ("crypto_kx_server_session_keys", "server")):
+        _, _, b = find_fn(src, fn)
+        sm, ism = call_args_text(b, "crypto_scalarmult")
+        ck, ick = call_args_text(b, "check_shared_secret")
+        kx, ikx = call_args_text(b, "crypto_kx")
+        sm, ck, kx = names(sm), names(ck), names(kx)
+        checked = ism < ick < ikx and bool(re.search(r"check_shared_secret\s*\([^)]*\)\s*\?\s*;", b)) and ck == [sm[0]]
+        out += "def %s_scalarmult_args : List String := [%s]\n\n" % (short, ", ".join('"%s"' % x for x in sm[1:]))
+        out += "def %s_helper_args : List String := [%s]\n\n" % (short, ", ".join('"%s"' % x for x in kx))
+        out += "def %s_checks_zero_between : Bool := %s\n\n" % (short, "true" if checked else "false")
+    _, _, cb = find_fn(src, "check_shared_secret")
+    canon = "{ use subtle::ConstantTimeEq; if shared_secret.ct_eq(&[0u8; CRYPTO_SCALARMULT_BYTES]).unwrap_u8() == 1 { Err(0) } else { Ok(()) } }"
+    cbn = cb
+    while True:
+        i = cbn.find("dryoc_error!")
+        if i < 0:
+            break
+        j = match_bracket(cbn, cbn.index("(", i), "(", ")")
+        cbn = cbn[:i] + "0" + cbn[j + 1:]
+    tkz = lambda t: [x for x in lex(t) if x[0] != "eof"]
+    out += "def zero_check_is_exact : Bool := %s\n\n" % ("true" if tkz(cbn) == tkz(canon) and consts["CRYPTO_SCALARMULT_BYTES"] == 32 else "false")
+    return out + "end DryocVerif.Gen.Kx\n"
+
+
+def k_rand(repo):
+    """where the password-hash entry points draw their salt relative to their parameter checks, and how many bytes:
+    `crypto_pwhash_str` validates the cost limits first and then draws a 16-byte salt; `PwHash::hash` sizes the salt from
+    `config.salt_length`, draws it, and only then calls `crypto_pwhash` (which validates) — so an invalid Config costs a draw"""
+    out = header("src/classic/crypto_pwhash.rs, src/pwhash.rs", "Rand")
+    csrc = strip_tests(open(os.path.join(repo, "src/classic/crypto_pwhash.rs")).read())
+    _, _, b = find_fn(csrc, "crypto_pwhash_str")
+    vals = [m.start() for m in re.finditer(r"validate!\s*\(", b)]
+    draws = [m.start() for m in re.finditer(r"copy_randombytes\s*\(", b)]
+    out += "def pwhash_str_draws : Nat := %d\n\n" % len(draws)
+    out += "def pwhash_str_draws_after_validate : Bool := %s\n\n" % ("true" if len(draws) == 1 and vals and max(vals) < draws[0] else "false")
+    m = re.search(r"let\s+mut\s+salt\s*=\s*\[\s*0u8\s*;\s*([A-Z0-9_]+)\s*\]\s*;", b)
+    if not m:
+        fail("crypto_pwhash_str: `let mut salt = [0u8; CONST];` not found")
+    n = crate_consts(repo, [m.group(1)])[m.group(1)]
+    arg = re.search(r"copy_randombytes\s*\(\s*&mut\s+salt\s*\)", b)
+    out += "def pwhash_str_salt_bytes : Nat := %d\n\n" % (n if arg else 0)
+    psrc = strip_tests(open(os.path.join(repo, "src/pwhash.rs")).read())
+    _, _, hb = find_fn(psrc, "hash")
+    i_resize = hb.find("salt.resize(config.salt_length, 0)")
+    i_draw = hb.find("copy_randombytes(salt.as_mut_slice())")
+    i_call = hb.find("crypto_pwhash::crypto_pwhash(")
+    out += "def pwhash_obj_draws_salt_length_before_validate : Bool := %s\n\n" % ("true" if 0 <= i_resize < i_draw < i_call and hb.count("copy_randombytes") == 1 else "false")
+    return out + "end DryocVerif.Gen.Rand\n"
+
+
+KERNELS = {"Rand": k_rand, "Kx": k_kx, "Stream": k_stream, "SimdText": k_simdtext, "Pwhash": k_pwhash, "Curve": k_curve, "Protected": k_protected, "Core": k_core, "Argon2": k_argon2, "Utils": k_utils, "Poly1305": k_poly1305, "Blake2b": k_blake2b, "SipHash": k_siphash}
 
 
 def main(argv):
